@@ -2,6 +2,8 @@ package gen
 
 import (
 	"encoding/json"
+	"flag"
+	"os"
 	"testing"
 
 	"pgregory.net/rapid"
@@ -49,7 +51,8 @@ func TestGeneratedValuesAreWhatTheyClaim(t *testing.T) {
 		v := GenVal(AllVals).Draw(rt, "v")
 		switch v.K {
 		case VWord:
-			if !PlainWordOK(v.S) && v.Src == v.S {
+			// single-quoted phrases are one token whose value keeps the quotes (RawWord)
+			if sq := len(v.Src) >= 2 && v.Src[0] == '\'' && v.Src[len(v.Src)-1] == '\''; !sq && !PlainWordOK(v.S) && v.Src == v.S {
 				rt.Fatalf("bare word %q is not a plain word", v.S)
 			}
 		case VInt, VFloat:
@@ -82,4 +85,15 @@ func TestValJSONLossless(t *testing.T) {
 			t.Errorf("token %q came back as %q", tk.Text, t2.Text)
 		}
 	}
+}
+
+// TestMain pins rapid's seed: `./check setup` must be a pure function of the tree.
+func TestMain(m *testing.M) {
+	flag.Parse()
+	if f := flag.Lookup("rapid.seed"); f != nil && f.Value.String() == "0" {
+		_ = flag.Set("rapid.seed", "20261002")
+	}
+	_ = flag.Set("rapid.nofailfile", "true")
+	_ = flag.Set("rapid.checks", "2000")
+	os.Exit(m.Run())
 }
